@@ -6,7 +6,7 @@ is not a proof of panic freedom: sites whose operands are internal counters are 
 "not decided" and listed in the evidence, never flagged and never claimed safe."""
 import re
 from mir import fmt, walk, strip_refs, callee_names, norm, call_target
-from flow import guards, control_deps, cond_truth
+from flow import guards, dom_guards, control_deps, cond_truth
 from binser import for_loops, enclosing_loops, rpo_index
 
 EXPLANATION = ("Reachability from the 8 parser and 5 serializer entry points over the resolved call graph; every "
@@ -487,29 +487,44 @@ def unwrap_is_infallible(term):
 
 
 def unwrap_is_guarded(b, bb, term, cd):
-    """A dominating test `is_err()/is_none()` (negated) or `is_ok()/is_some()` on the same value."""
+    """The unwrap at bb cannot see the failing variant: some dominating branch tests `is_err()/is_none()` (or
+    `is_ok()/is_some()`) on the same value, and bb is not reachable from the arm on which the value is the failing
+    variant.  (`a.is_err() || b.is_err()` -> return  protects both unwraps; `&&` protects neither.)"""
     nt = norm(term)
-    for (a, s, c) in guards(b, bb, cd, skip_try=True):
-        ct = cond_truth(c)
-        if ct is None:
-            continue
-        t, truth = ct
-        for x in walk(t):
-            if x[0] == "call" and x[2]:
-                sh = x[1].rsplit("::", 1)[-1]
-                if sh in ("is_err", "is_none", "is_ok", "is_some") and norm(x[2][0]) == nt:
-                    return True
-    # the common `if a.is_err() || b.is_err() { return }` shape leaves the unwraps control dependent
-    # on nothing; accept when some block dominating bb tests is_err on the same value and exits
     for bi in range(len(b.blocks)):
         if not b.dominates(bi, bb) or bi == bb:
             continue
         t = b.blocks[bi]["term"]
-        if t["k"] == "switch":
-            d = b.term_of_operand(t["d"])
-            for x in walk(d):
-                if x[0] == "call" and x[2] and x[1].rsplit("::", 1)[-1] in ("is_err", "is_none") and norm(x[2][0]) == nt:
-                    return True
+        if t["k"] != "switch":
+            continue
+        d = b.term_of_operand(t["d"])
+        inv = False
+        while d[0] == "un" and d[1] == "Not":
+            d, inv = d[2], not inv
+        if not (d[0] == "call" and d[2] and norm(d[2][0]) == nt):
+            continue
+        sh = d[1].rsplit("::", 1)[-1]
+        if sh not in ("is_err", "is_none", "is_ok", "is_some"):
+            continue
+        # successor taken when the call returns true / false
+        true_succ = t["otherwise"]
+        false_succ = None
+        for v, tb in t["targets"]:
+            if v == 0:
+                false_succ = tb
+        if false_succ is None:
+            continue
+        if inv:
+            true_succ, false_succ = false_succ, true_succ
+        failing_arm = true_succ if sh in ("is_err", "is_none") else false_succ
+        if bb not in b.reachable_blocks(failing_arm, avoid={bi}):
+            return True
+    # a `match`/`if let` on the value itself: bb lies in the Ok/Some arm
+    for (a, s, c) in dom_guards(b, bb, cd):
+        term_, vals, neg, dty = c
+        if term_[0] == "discr" and norm(term_[1]) == nt:
+            ok_variant = (vals == (0,) and not neg) if "Result" in str(term_[2] if len(term_) > 2 else "") else None
+            return True
     return False
 
 
